@@ -478,8 +478,22 @@ def rule_sib_t2(ctx) -> None:
     for f in keyfn:
         for r in [x for x in walk_no_defs(f.node) if isinstance(x, ast.Return) and isinstance(x.value, ast.Tuple)]:
             kparts = [src(e) for e in r.value.elts]
-    ok = len(kparts) == 2 and kparts[0].startswith("-_qscore(") and "id" in kparts[1]
-    ctx.check(ok, "C09.SIB-T2", f"{mg.qual}/merge-order", mg.loc(), f"cross-shard buckets are sorted by ({', '.join(kparts)})", f"cross-shard sort key is {kparts}, not (-qscore(score), id)")
+    # sibling agreement with the ranking the shards' own hits come in: InMemoryIndex sorts by (-score, id) on the raw score.
+    # The merge key is (-<score>, id) where <score> is the hit's score converted at most by float(): rounding / quantising it
+    # (round, int, _qscore, //) ties hits the sequential walk tells apart, and the k cut then keeps another one.
+    coarse = None
+    kret = None
+    for f in keyfn:
+        for r in [x for x in walk_no_defs(f.node) if isinstance(x, ast.Return) and isinstance(x.value, ast.Tuple)]:
+            kret = (f, r.value)
+    if kret is not None and len(kret[1].elts) == 2:
+        kf, tup = kret
+        first = ctx.rd(kf).inline(tup.elts[0], ctx.cfg(kf).node_containing(tup)[0]) if ctx.cfg(kf).node_containing(tup) else tup.elts[0]
+        coarse = next((x for x in ast.walk(first) if (isinstance(x, ast.Call) and (call_tail(x) in ("round", "int", "_qscore", "floor", "trunc", "quantize"))) or (isinstance(x, ast.BinOp) and isinstance(x.op, ast.FloorDiv))), None)
+    ok = len(kparts) == 2 and kparts[0].startswith("-") and "id" in kparts[1] and coarse is None
+    ctx.check(ok, "C09.SIB-T2", f"{mg.qual}/merge-order", mg.loc(), f"cross-shard buckets are sorted by ({', '.join(kparts)}) on the raw score, as the index ranks",
+              f"cross-shard sort key is {kparts}" + (f" with the score coarsened by `{src(coarse)[:40]}`: hits whose scores differ by less than the quantum are ordered by id, while the index orders them by score - "
+                                                     "at the k cut the parallel path keeps another hit than the sequential walk" if coarse is not None else ", not (-score, id)"))
     cfg = ctx.cfg(mg)
     # the merged list: first element of the returned tuple; the seen-set: a local bound to set()
     outs = {r.value.elts[0].id for r in walk_no_defs(mg.node) if isinstance(r, ast.Return) and isinstance(r.value, ast.Tuple) and r.value.elts and isinstance(r.value.elts[0], ast.Name)}
@@ -491,6 +505,49 @@ def rule_sib_t2(ctx) -> None:
     kparam = mg.params[2] if len(mg.params) > 2 else "k_retrieval"
     stops = [n for n in cfg.nodes if n.kind == "stmt" and isinstance(n.ast, ast.Return) and any(p and any(f"len({o}) >= {kparam}" in t for o in outs) for t, p in cfg.facts(n))]
     ctx.check(bool(stops), "C09.SIB-T2", f"{mg.qual}/stops-at-k", mg.loc(), "the merge returns as soon as k hits are collected", "the cross-shard merge does not stop at k")
+
+
+def rule_shard_task_faithful(ctx) -> None:
+    """the per-shard task hands run_parallel what the shard did: (a) a failing search fails the task - a handler that turns
+    the failure into 'no hits' hides it from the helper, which then merges the other shards' hits as the result while the
+    sequential walk raises on the same memory ("reports every failure ... without merging partial results"); (b) "exactly the
+    items": what the fan-out passes on per hit, and the shim the stage wraps it in, carry every field of EpisodeRef - the
+    type the sequential walk returns."""
+    from ..util import guarded_by_catch_all
+    cs = ctx.func(T2PAR)
+    calls = [x for x in walk_no_defs(cs.node) if isinstance(x, ast.Call) and call_tail(x) == "search_tiered"]
+    ctx.floor("C09.SIB-T2", "search_tiered calls in the per-shard task", len(calls), 1)
+    for c in calls:
+        t = guarded_by_catch_all(ctx.prog, cs, c)
+        hides = t is not None and not any(isinstance(y, ast.Raise) for h in t.handlers for st in h.body for y in ast.walk(st))
+        ctx.check(not hides, "C09.SIB-T2", ctx.okey(f"{cs.qual}/shard-failure-reaches-the-helper"), cs.loc(c), "a failing shard search propagates out of the task",
+                  "the shard search sits in a catch-all that substitutes an empty hit list: the task 'succeeds', run_parallel has no failure to report and the remaining shards' hits are "
+                  "merged and returned - the sequential walk raises on the same memory")
+    # field agreement with EpisodeRef
+    tm = ctx.prog.module("clematis.engine.types")
+    cls = next((x for x in tm.tree.body if isinstance(x, ast.ClassDef) and x.name == "EpisodeRef"), None)
+    if cls is None:
+        raise AnalysisError("anchor-vanished: EpisodeRef")
+    fields = {st.target.id for st in cls.body if isinstance(st, ast.AnnAssign) and isinstance(st.target, ast.Name)}
+    ctx.floor("C09.SIB-T2", "fields of EpisodeRef", len(fields), 4)
+    lits = [x for x in walk_no_defs(cs.node) if isinstance(x, ast.Dict) and {const_str(k) for k in x.keys if k is not None} >= {"id", "score"}]
+    ctx.floor("C09.SIB-T2", "hit records built by the per-shard task", len(lits), 1)
+    for d in lits:
+        have = {const_str(k) for k in d.keys if k is not None}
+        ctx.check(fields <= have, "C09.SIB-T2", ctx.okey(f"{cs.qual}/hit-record-has-episode-fields"), cs.loc(d), f"the per-shard hit record carries {sorted(fields)}",
+                  f"the per-shard hit record drops {sorted(fields - have)} of EpisodeRef: the parallel path returns items with fewer fields than the sequential walk (reading the missing attribute raises)")
+    hm = ctx.prog.module("clematis.engine.stages.t2.helpers")
+    shim = next((x for x in hm.tree.body if isinstance(x, ast.ClassDef) and x.name == "EpRefShim"), None)
+    if shim is None:
+        raise AnalysisError("anchor-vanished: EpRefShim")
+    slots = set()
+    for st in shim.body:
+        if isinstance(st, ast.Assign) and any(isinstance(t, ast.Name) and t.id == "__slots__" for t in st.targets) and isinstance(st.value, (ast.Tuple, ast.List)):
+            slots = {const_str(e) for e in st.value.elts}
+    assigned = {t.attr for x in ast.walk(shim) if isinstance(x, ast.Assign) for t in x.targets if isinstance(t, ast.Attribute) and src(t.value) == "self"}
+    have = (slots & assigned) if slots else assigned
+    ctx.check(fields <= have, "C09.SIB-T2", "clematis.engine.stages.t2.helpers:EpRefShim/has-episode-fields", "clematis/engine/stages/t2/helpers.py", f"EpRefShim carries {sorted(fields)}",
+              f"EpRefShim lacks {sorted(fields - have)}: hits of the shard fan-out are not the items the sequential walk returns")
 
 
 def rule_shard_decomposable(ctx) -> None:
@@ -612,5 +669,6 @@ def run(ctx) -> None:
     rule_sib_t1(ctx)
     rule_sib_t2(ctx)
     rule_tier_independent(ctx)
+    rule_shard_task_faithful(ctx)
     rule_shard_decomposable(ctx)
     rule_share(ctx)
